@@ -4,7 +4,7 @@ import verif as V
 PROP = "C12"
 SPEC = "Bng.Spec.C12"
 COMPS = [
-    V.Component("dist", monitors=["store-agree", "restart", "remote", "unique", "reverse", "roundtrip"]),
+    V.Component("dist", monitors=["store-agree", "restart", "remote", "unique", "idempotent", "reclaimed", "reverse", "roundtrip"]),
     # PoolAllocator (store.go) over a fault-injecting MemoryAllocationStore shared with other pools
     V.Component("poolalloc", monitors=["store-agree", "reverse", "unique", "count"]),
 ]
